@@ -38,6 +38,7 @@ func c05Lanes(r *Report, u *AsmUnit) {
 		if !rt.HasDecl || !strings.HasPrefix(rt.Name, "cryptoBlockAsm") {
 			continue
 		}
+		rt = rt.UnrollConstLoops() // a round loop with a constant trip count is the same instruction sequence
 		flow := AnalyzeFlow(rt)
 		if len(flow.Errors) > 0 {
 			r.Fatalf("%s: %s", rt.Name, flow.Errors[0])
